@@ -1191,7 +1191,6 @@ func argElementLeaf(e *Env, v ssa.Value, argsT string, skipCount bool, depth int
 	return ""
 }
 
-
 // parserRoutineFor: the function the ESDT-transfer parser calls when the function name equals the given protocol name — found
 // through the comparison `name == "<protocol name>"` in an exported method of package parsers — as an env below that call.
 func parserRoutineFor(p *Prog, name string) *Env {
